@@ -2,7 +2,7 @@
    Statements only; proofs are in Proofs/C01Proofs.v.  Model: Model/Authn.v (clientutil.Authenticated,
    transcribed), Model/AuthnSpec.v (what a valid credential is, declaratively), Model/AuthnLink.v
    (how the abstract credential of Token.v / Authorize.v sits on top), Model/Token.v, Model/Authorize.v. *)
-From Verif Require Import Base Scope Types Prog Pop Token Authorize Authn AuthnSpec AuthnLink C01Proofs.
+From Verif Require Import Base Scope Types Prog Pop Token Authorize Authn AuthnSpec AuthnLink C01Proofs JwtBearerProofs.
 Local Open Scope N_scope.
 
 (* SOUNDNESS.  For every configuration, every authentication context (token / introspection /
@@ -46,7 +46,8 @@ Print Assumptions valid_credential_decided.
    credential) the handler answers an error, the store after the run is the store before it, the
    only storage calls made are reads of the client store, and -- when the guards the handler
    evaluates before authenticating pass (grant type enabled, code / refresh token present, endpoint
-   enabled) -- the error is invalid_client. *)
+   enabled) -- the error is invalid_client.  (The jwt-bearer grant, the one endpoint with an exception,
+   is the subject of jwt_bearer_anonymous_only_when_allowed below.) *)
 Theorem unauthenticated_inert : forall w n now st,
   (forall r, unauthenticated w st (t_cred r) -> refused_inert (code_grant w n now r) st (pre_code w r)) /\
   (forall r, unauthenticated w st (t_cred r) -> refused_inert (refresh_grant w n now r) st (pre_refresh w r)) /\
@@ -58,6 +59,47 @@ Theorem unauthenticated_inert : forall w n now st,
   (forall r, unauthenticated w st (q_cred r) -> refused_inert (revoke w now r) st (cf_revocation (w_cfg w))).
 Proof. exact unauthenticated_inert_l. Qed.
 Print Assumptions unauthenticated_inert.
+
+(* THE EXCEPTION: the jwt-bearer grant (Token.jwt_bearer_grant).  For every world, store, clock,
+   operation index and request:
+   - a request yields tokens without an authenticated client ONLY IF it carries no client identification
+     at all (no client_id, no basic user, no client_assertion: cr_id = 0) and the embedder did not set
+     WithJWTBearerGrantClientAuthnRequired; the grant is then issued to the anonymous client (empty id)
+     and carries no refresh token;
+   - a request that is not authenticated and names somebody (unknown client, known client with a bad
+     credential), or meets a server that requires client authentication for the grant, is refused as
+     on every other endpoint: an error - invalid_client once the grant type is enabled -, the store
+     unchanged, no storage call but reads of the client store. *)
+Theorem jwt_bearer_anonymous_only_when_allowed : forall w n now r st,
+  ((exists t, snd (run_seq (jwt_bearer_grant w n now r) st) = OTokens t) ->
+   snd (run_seq (Token.authenticated w (t_cred r)) st) = None ->
+   cr_id (t_cred r) = 0 /\ cf_jwt_bearer_authn_required (w_cfg w) = false /\
+   forall g, st_gsess (fst (run_seq (jwt_bearer_grant w n now r) st)) = put_gsess g (st_gsess st) ->
+             g_refresh g = 0 /\ g_client g = 0) /\
+  (unauthenticated w st (t_cred r) ->
+   cr_id (t_cred r) <> 0 \/ cf_jwt_bearer_authn_required (w_cfg w) = true ->
+   refused_inert (jwt_bearer_grant w n now r) st (has_grant GJwtBearer (cf_grants (w_cfg w)))).
+Proof.
+  intros w n now r st. split.
+  - intros [t T0] A. assert (T : Monitors.is_tokens (snd (run_seq (jwt_bearer_grant w n now r) st)) = true) by (rewrite T0; reflexivity).
+    destruct (jwt_bearer_anonymous_needs w n now r st T A) as [Z F]. split; [exact Z|]. split; [exact F|].
+    intros g S. exact (anonymous_no_refresh w n now r st g T A S).
+  - exact (inert_jwt_bearer w n now r st).
+Qed.
+Print Assumptions jwt_bearer_anonymous_only_when_allowed.
+
+(* the hypotheses are satisfiable: an anonymous request that yields tokens; a request naming a known
+   client with a wrong credential that is refused with invalid_client *)
+Example jwt_bearer_exception_nonvacuous :
+  (exists t, snd (run_seq (jwt_bearer_grant (ex_jb_world false) 0 0%Z (ex_jb_req (mkCred 0 false) "openid" (AsOk "bob"))) empty_store) = OTokens t) /\
+  snd (run_seq (Token.authenticated (ex_jb_world false) (mkCred 0 false)) empty_store) = None /\
+  unauthenticated (ex_jb_world false) empty_store (mkCred 1 false) /\
+  snd (run_seq (jwt_bearer_grant (ex_jb_world false) 0 0%Z (ex_jb_req (mkCred 1 false) "openid" (AsOk "bob"))) empty_store) = OErr EInvalidClient.
+Proof.
+  destruct ex_jb_post_antecedent as (A & B & C & D). split; [|auto].
+  destruct (snd (run_seq (jwt_bearer_grant (ex_jb_world false) 0 0%Z (ex_jb_req (mkCred 0 false) "openid" (AsOk "bob"))) empty_store)); try discriminate.
+  eexists; reflexivity.
+Qed.
 
 (* refused_inert in terms of the sequential interpreter the other properties use *)
 Theorem refused_inert_run_seq : forall p st pre,
